@@ -230,11 +230,15 @@ TMCG_Bigint& TMCG_Bigint::operator /=
 	{
 		if (that.secret)
 		{
+			if (gcry_mpi_cmp_ui(that.secret_bigint, 0UL) == 0)
+				throw std::domain_error("TMCG_Bigint::division by zero");
 			gcry_mpi_div(secret_bigint, NULL, secret_bigint,
 				that.secret_bigint, 0);
 		}
 		else
 		{
+			if (mpz_cmp_ui(that.bigint, 0UL) == 0)
+				throw std::domain_error("TMCG_Bigint::division by zero");
 			gcry_mpi_t tmp = gcry_mpi_new(that.size(2));
 			tmcg_mpz_get_gcry_mpi(tmp, that.bigint);
 			gcry_mpi_div(secret_bigint, NULL, secret_bigint, tmp, 0);
@@ -282,10 +286,14 @@ TMCG_Bigint& TMCG_Bigint::operator %=
 	{
 		if (that.secret)
 		{
+			if (gcry_mpi_cmp_ui(that.secret_bigint, 0UL) == 0)
+				throw std::domain_error("TMCG_Bigint::division by zero");
 			gcry_mpi_mod(secret_bigint, secret_bigint, that.secret_bigint);
 		}
 		else
 		{
+			if (mpz_cmp_ui(that.bigint, 0UL) == 0)
+				throw std::domain_error("TMCG_Bigint::division by zero");
 			gcry_mpi_t divisor = gcry_mpi_new(that.size(2));
 			tmcg_mpz_get_gcry_mpi(divisor, that.bigint);
 			gcry_mpi_mod(secret_bigint, secret_bigint, divisor);
